@@ -285,6 +285,12 @@ def run_flow(ctx, prop_lc, module, theorems, matchers, nontrivial, rule, table_o
                           "model": len(model), "impl_tail": impl[-2:], "model_tail": model[-2:]}, no_input=True)
         return common.finish(ctx, trusted_base=trusted)
 
+    if replay_cases is not None:
+        for i in range(n):
+            print("case :", lines[i])
+            for name, out in (("impl ", impl[i]), ("model", model[i]), ("spec ", spec[i])):
+                for j, rec in enumerate(out.split(" | ")):
+                    print(f"{name} tx{j}: {rec}")
     spec_bad, corr_bad = [], []
     keys = set()
     hist = collections.Counter()
